@@ -52,4 +52,16 @@ def fam_map():
             out.append(StructDef('Mp_%s_%s' % (kn, n), [Field(1, 'default', ('map', k, e))]))
     return out
 
-FAMILIES = {'scalar': fam_scalar, 'list': fam_list, 'map': fam_map}
+def fam_bytes(nmax=8):
+    ns = [{'N': n} for n in range(0, nmax + 1)]
+    S1 = StructDef('By_scalars', [Field(1, 'default', S('i32')), Field(2, 'required', S('bool')), Field(3, 'optional', S('i64'), ptr=True),
+                                  Field(4, 'default', S('string')), Field(5, 'optional', S('binary'))])
+    S2 = StructDef('By_list', [Field(1, 'default', ('list', S('i16'))), Field(2, 'optional', ('set', S('string')))])
+    S3 = StructDef('By_map', [Field(1, 'default', ('map', S('i8'), S('string'))), Field(2, 'default', ('map', S('string'), S('i32')))])
+    S4 = StructDef('By_nest', [Field(1, 'default', ('struct', LEAF, True)), Field(2, 'default', ('list', ('struct', LEAF, False))),
+                               Field(3, 'optional', ('struct', LEAFD, True))])
+    S5 = StructDef('By_unk', [Field(1, 'default', S('i8')), Field(300, 'required', S('i16'))], has_unknown=True)
+    S6 = StructDef('By_enum', [Field(1, 'default', S('enum')), Field(2, 'default', S('double')), Field(3, 'default', ('map', S('enum'), S('double')))])
+    return [{'sd': s, 'kinds': ['bytes'], 'params': {'bytes': ns}} for s in (S1, S2, S3, S4, S5, S6)]
+
+FAMILIES = {'bytes8': lambda: fam_bytes(8), 'bytes12': lambda: fam_bytes(12), 'scalar': fam_scalar, 'list': fam_list, 'map': fam_map}
